@@ -14,7 +14,7 @@ SLOT_FOR = {"VoiceLCHeader": 0x1111, "TerminatorWithLC": 0x2222, "CSBK": 0x3333,
             "Rate34Data": 0x6666, "PIHeader": 0x0000}
 
 
-def observe_path(frame, use_kaitai):
+def observe_path(frame, use_kaitai, scribble=False):
     from okdmr.dmrlib.etsi.layer2.burst import Burst
     from okdmr.kaitai.hytera.ip_site_connect_protocol import IpSiteConnectProtocol
     o = {"err": "", "cls": "", "bits": "", "timeslot": 0, "seq": -1, "cc": -1, "src": -1, "dst": -1, "fsrc": -1, "fdst": -1, "octets": [], "reser": [], "reser_err": ""}
@@ -34,6 +34,8 @@ def observe_path(frame, use_kaitai):
             o["reser"] = list(b.hytera_ipsc.as_ipsc_bytes())
         except Exception as ex:  # noqa
             o["reser_err"] = type(ex).__name__
+        if scribble:
+            gen.scribble(b)
     except Exception as ex:  # noqa
         o["err"] = type(ex).__name__
     return o
@@ -91,7 +93,8 @@ def run(ctx):
         frames.append(f)
     samples = []
     for f in frames:
-        samples.append({"frame": list(f), "a": observe_path(f, False), "b": observe_path(f, True)})
+        # every other frame is decoded by a caller that edits the bursts it got back after use
+        samples.append({"frame": list(f), "a": observe_path(f, False, len(samples) % 2 == 1), "b": observe_path(f, True, len(samples) % 2 == 1)})
         ctx.count(core.digest(list(f)))
     path = os.path.join(ctx.rundir, "c13_data.json")
     json.dump({"samples": samples}, open(path, "w"))
